@@ -36,6 +36,7 @@ package lazy
 
 import (
 	"errors"
+	"sync"
 
 	"github.com/coregx/coregex/nfa"
 	"github.com/coregx/coregex/prefilter"
@@ -64,7 +65,13 @@ type DFA struct {
 	nfa       *nfa.NFA
 	config    Config
 	prefilter prefilter.Prefilter
-	pikevm    *nfa.PikeVM // NFA fallback — may be shared with Engine (Issue #158)
+	pikevm    *nfa.PikeVM // NFA fallback prototype — may be shared with Engine (Issue #158)
+
+	// pvPool holds the PikeVM instances the fallback paths actually run on. The DFA is
+	// shared by all goroutines and a PikeVM keeps its scratch in the instance (not
+	// thread-safe), so concurrent fallbacks on d.pikevm raced and could return each
+	// other's results. Instances are created on first use only.
+	pvPool sync.Pool
 
 	// byteClasses maps bytes to equivalence classes for alphabet reduction.
 	// Bytes in the same class have identical transitions in all DFA states.
@@ -573,7 +580,7 @@ func (d *DFA) searchEarliestMatch(cache *DFACache, haystack []byte, startPos int
 	currentState := d.getStartStateForUnanchored(cache, haystack, startPos)
 	if currentState == nil {
 		// Fallback to NFA using SearchAt to preserve absolute positions
-		start, end, matched := d.pikevm.SearchAt(haystack, startPos)
+		start, end, matched := d.pvSearchAt(haystack, startPos)
 		return matched && start >= 0 && end >= start
 	}
 
@@ -691,7 +698,7 @@ func (d *DFA) searchEarliestMatch(cache *DFACache, haystack []byte, startPos int
 					pos = candidate
 					newStart := d.getStartStateForUnanchored(cache, haystack, pos)
 					if newStart == nil {
-						start, end, matched := d.pikevm.SearchAt(haystack, startPos)
+						start, end, matched := d.pvSearchAt(haystack, startPos)
 						return matched && start >= 0 && end >= start
 					}
 					sid = newStart.id
@@ -720,7 +727,7 @@ func (d *DFA) searchEarliestMatch(cache *DFACache, haystack []byte, startPos int
 		// Try lazy acceleration detection if not yet checked
 		currentState = cache.getState(sid)
 		if currentState == nil {
-			start, end, matched := d.pikevm.SearchAt(haystack, startPos)
+			start, end, matched := d.pvSearchAt(haystack, startPos)
 			return matched && start >= 0 && end >= start
 		}
 		d.tryDetectAccelerationWithCache(currentState, cache)
@@ -764,7 +771,7 @@ func (d *DFA) searchEarliestMatch(cache *DFACache, haystack []byte, startPos int
 			// Determinize on demand
 			nextState, err := d.determinize(cache, currentState, b)
 			if err != nil {
-				start, end, matched := d.pikevm.SearchAt(haystack, startPos)
+				start, end, matched := d.pvSearchAt(haystack, startPos)
 				return matched && start >= 0 && end >= start
 			}
 			if nextState == nil {
@@ -806,7 +813,7 @@ func (d *DFA) searchEarliestMatch(cache *DFACache, haystack []byte, startPos int
 		pos = candidate
 		newStart := d.getStartStateForUnanchored(cache, haystack, pos)
 		if newStart == nil {
-			start, end, matched := d.pikevm.SearchAt(haystack, startPos)
+			start, end, matched := d.pvSearchAt(haystack, startPos)
 			return matched && start >= 0 && end >= start
 		}
 		sid = newStart.id
@@ -839,7 +846,7 @@ func (d *DFA) searchEarliestMatchAnchored(cache *DFACache, haystack []byte, star
 	currentState := d.getStartState(cache, haystack, startPos, true)
 	if currentState == nil {
 		// Fallback to NFA with anchored search
-		start, end, matched := d.pikevm.SearchAt(haystack, startPos)
+		start, end, matched := d.pvSearchAt(haystack, startPos)
 		// For anchored: match must start exactly at startPos
 		return matched && start == startPos && end >= start
 	}
@@ -874,7 +881,7 @@ func (d *DFA) searchEarliestMatchAnchored(cache *DFACache, haystack []byte, star
 		case InvalidState:
 			currentState = cache.getState(sid)
 			if currentState == nil {
-				start, end, matched := d.pikevm.SearchAt(haystack, startPos)
+				start, end, matched := d.pvSearchAt(haystack, startPos)
 				return matched && start == startPos && end >= start
 			}
 			nextState, err := d.determinize(cache, currentState, b)
@@ -882,7 +889,7 @@ func (d *DFA) searchEarliestMatchAnchored(cache *DFACache, haystack []byte, star
 				if isCacheCleared(err) {
 					currentState = d.getStartState(cache, haystack, pos, true)
 					if currentState == nil {
-						start, end, matched := d.pikevm.SearchAt(haystack, startPos)
+						start, end, matched := d.pvSearchAt(haystack, startPos)
 						return matched && start == startPos && end >= start
 					}
 					sid = currentState.id
@@ -891,7 +898,7 @@ func (d *DFA) searchEarliestMatchAnchored(cache *DFACache, haystack []byte, star
 					pos--
 					continue
 				}
-				start, end, matched := d.pikevm.SearchAt(haystack, startPos)
+				start, end, matched := d.pvSearchAt(haystack, startPos)
 				return matched && start == startPos && end >= start
 			}
 			if nextState == nil {
@@ -1674,12 +1681,32 @@ func (d *DFA) getStartStateForUnanchored(cache *DFACache, haystack []byte, pos i
 	return d.getStartState(cache, haystack, pos, false)
 }
 
+// pvSearch / pvSearchAt run the NFA fallback on a pooled PikeVM instance.
+func (d *DFA) pvSearch(haystack []byte) (int, int, bool) {
+	vm := d.getFallbackVM()
+	defer d.pvPool.Put(vm)
+	return vm.Search(haystack)
+}
+
+func (d *DFA) pvSearchAt(haystack []byte, at int) (int, int, bool) {
+	vm := d.getFallbackVM()
+	defer d.pvPool.Put(vm)
+	return vm.SearchAt(haystack, at)
+}
+
+func (d *DFA) getFallbackVM() *nfa.PikeVM {
+	if vm, ok := d.pvPool.Get().(*nfa.PikeVM); ok && vm != nil {
+		return vm
+	}
+	return nfa.NewPikeVM(d.nfa)
+}
+
 // nfaFallback executes the NFA (PikeVM) when DFA gives up.
 // This ensures correctness even when cache is full or pattern is too complex.
 func (d *DFA) nfaFallback(haystack []byte, startPos int) int {
 	// Search from startPos to end using SearchAt to preserve absolute positions
 	// This is critical for anchor handling (^ should only match at position 0)
-	_, end, matched := d.pikevm.SearchAt(haystack, startPos)
+	_, end, matched := d.pvSearchAt(haystack, startPos)
 	if !matched {
 		return -1
 	}
@@ -1693,7 +1720,7 @@ func (d *DFA) nfaFallback(haystack []byte, startPos int) int {
 // and then has the same leftmost-first end; a match that starts later is no answer
 // (`a` anchored at 0 on "\x00\x00a" is no match, not 3).
 func (d *DFA) nfaFallbackAnchored(haystack []byte, startPos int) int {
-	start, end, matched := d.pikevm.SearchAt(haystack, startPos)
+	start, end, matched := d.pvSearchAt(haystack, startPos)
 	if !matched || start != startPos {
 		return -1
 	}
@@ -1707,7 +1734,7 @@ func (d *DFA) matchesEmptyAt(cache *DFACache, haystack []byte, at int) bool {
 	if at == 0 {
 		return d.matchesEmpty(cache)
 	}
-	_, end, matched := d.pikevm.SearchAt(haystack, at)
+	_, end, matched := d.pvSearchAt(haystack, at)
 	return matched && end == at
 }
 
@@ -1721,7 +1748,7 @@ func (d *DFA) matchesEmpty(cache *DFACache) bool {
 	}
 
 	// Fall back to NFA for empty match check (handles word boundaries, etc.)
-	start, end, matched := d.pikevm.Search([]byte{})
+	start, end, matched := d.pvSearch([]byte{})
 	return matched && start == 0 && end == 0
 }
 
@@ -2137,7 +2164,7 @@ func (d *DFA) IsMatchReverse(cache *DFACache, haystack []byte, start, end int) b
 
 	currentState := d.getStartStateForReverse(cache, haystack, end)
 	if currentState == nil {
-		_, _, matched := d.pikevm.Search(haystack[start:end])
+		_, _, matched := d.pvSearch(haystack[start:end])
 		return matched
 	}
 
@@ -2165,7 +2192,7 @@ func (d *DFA) IsMatchReverse(cache *DFACache, haystack []byte, start, end int) b
 		case InvalidState:
 			currentState = cache.getState(sid)
 			if currentState == nil {
-				_, _, matched := d.pikevm.Search(haystack[start:end])
+				_, _, matched := d.pvSearch(haystack[start:end])
 				return matched
 			}
 			nextState, err := d.determinize(cache, currentState, b)
@@ -2173,7 +2200,7 @@ func (d *DFA) IsMatchReverse(cache *DFACache, haystack []byte, start, end int) b
 				if isCacheCleared(err) {
 					currentState = d.getStartStateForReverse(cache, haystack, at+1)
 					if currentState == nil {
-						_, _, matched := d.pikevm.Search(haystack[start:end])
+						_, _, matched := d.pvSearch(haystack[start:end])
 						return matched
 					}
 					sid = currentState.id
@@ -2182,7 +2209,7 @@ func (d *DFA) IsMatchReverse(cache *DFACache, haystack []byte, start, end int) b
 					at++ // Will be decremented by for-loop
 					continue
 				}
-				_, _, matched := d.pikevm.Search(haystack[start:end])
+				_, _, matched := d.pvSearch(haystack[start:end])
 				return matched
 			}
 			if nextState == nil {
@@ -2260,7 +2287,7 @@ func (d *DFA) getStartStateForReverse(cache *DFACache, haystack []byte, end int)
 // nfaFallbackReverse handles NFA fallback for reverse search.
 func (d *DFA) nfaFallbackReverse(haystack []byte, start, end int) int {
 	// For reverse fallback, we need to search the region and find match start
-	matchStart, _, matched := d.pikevm.Search(haystack[start:end])
+	matchStart, _, matched := d.pvSearch(haystack[start:end])
 	if !matched {
 		return -1
 	}
